@@ -6,9 +6,9 @@ CONFIG = {
     "trusted": [
         "modelled (Codec/*.v, Date.v): base64 StdEncoding encode/decode, url.QueryEscape/QueryUnescape, strconv.Unquote as DECODE_URI_COMPONENT applies it, "
         "html.EscapeString, strings.Split/explode, CONCAT_SEPARATOR on string arrays, strings.Trim/TrimLeft/TrimRight/TrimSpace, strings.ToUpper/ToLower over the "
-        "generated unicode case tables, Time.Add/Sub/AddDate on fixed zones, Duration int64 wrap, DATE_DIFF, RFC 3339 print (RFC3339Nano) and parse (parseRFC3339)",
-        "restrictions of the model: html decoder knows the encoder's five entities only; trim cutsets are valid UTF-8 without U+FFFD; DATE_DIFF's float64 division+truncation "
-        "is the integer quotient of the float64-rounded difference (exact on multiples of the unit and on saturated differences); the calendar is the proleptic Gregorian "
+        "generated unicode case tables, Time.Add/AddDate/Unix/Nanosecond on fixed zones, Duration int64 wrap, DATE_DIFF, RFC 3339 print (RFC3339Nano) and parse (parseRFC3339)",
+        "restrictions of the model: html decoder knows the encoder's five entities only; trim cutsets are valid UTF-8 without U+FFFD; DATE_DIFF is modelled for asFloat = false "
+        "only (Unix() seconds and Nanosecond() parts with a borrow, integer division per unit, int64 wrap on the millisecond product); the calendar is the proleptic Gregorian "
         "calendar via the civil-from-days algorithm (not Go's absDate code); zones are fixed whole-minute offsets",
         "JSON_STRINGIFY/JSON_PARSE: no Coq model and no theorem - covered by the correspondence run only (compare-equal on generated JSON-domain values)",
         "fact translator: harness/cmd/c17 -repo prints unicode.ToUpper/ToLower of every rune of the Go toolchain in use into Generated/GenUnicodeCase.v",
@@ -17,7 +17,7 @@ CONFIG = {
     ],
     "assumptions": [
         "strings are arbitrary byte strings (bytes < 256); dates are instants (sec, nsec) with 0 <= nsec < 10^9 shown in UTC or a fixed zone",
-        "date_add_sub: |amount * unit| < 2^63 in int64 arithmetic; date_diff_amount: 0 <= amount <= 2^32 and amount * unit <= 2^63-1 ns; rfc3339_roundtrip: local year 1..9999, |offset| < 24h",
+        "date_add_sub: |amount * unit| < 2^63 in int64 arithmetic; date_diff_amount: 0 <= amount <= 2^32 and the DATE_ADD product does not overflow (no bound on amount * unit; date_diff_amount_in_range: every amount in [0, 10^6] of every unit); date_diff_exact: the two instants at most 2^53 s apart; rfc3339_roundtrip: local year 1..9999, |offset| < 24h",
         "uri_roundtrip (pinned code): valid UTF-8 without double quote, backslash, newline - refuted outside (uri_roundtrip_refuted); uri_query_roundtrip has no guard",
     ],
     "timeout": 1200,
@@ -84,8 +84,11 @@ def describe(meta, fname, t):
             if k == 10:
                 if n < 0:
                     tags.append("diff-negative-amount")
+                if j == 1:
+                    tags.append("diff-not-absolute-value")
+                    note = " and != |n| [neither the amount nor the absolute value the model of the code returns]"
                 if abs(n) * UNIT_NS[u] > 2**63 - 1:
-                    tags.append("diff-saturated")
+                    note += " (|n| * unit is beyond the 2^63-1 ns of a time.Duration)"
             return {"key": "%d|%s|%d|%s" % (k, c["date"], n, c["unit"]), "mkind": kind, "tags": tags, "pair": PAIR[k],
                     "date": c["date"], "amount": n, "unit": c["unit"], "impl_diff": c.get("diff"),
                     "what": "%s %s%s: d=%s n=%d u='%s'%s" % (PAIR[k], "!= d" if k == 9 else "!= n", note, c["date"], n, c["unit"],
